@@ -249,7 +249,7 @@ def part_f(chk, thorough):
     reqs = list(c01.build(thorough)[4])
     for d, desc, forms in c17.all_spellings():
         reqs += [{"derive": d, "item": f} for f in forms]
-    reqs += [{"derive": d, "item": item} for d, cls, item, rustc in c17.corruptions()]
+    reqs += [{"derive": d, "item": item} for d, cls, item, rustc in (c17.corruptions() + c17.shifted_corruptions())]
     for named, fields in c09.layouts(3):
         for container in ("struct", "enum"):
             reqs.append({"derive": "Error", "item": c09.item_text(named, fields, container, lambda f, i: ("my::Backtrace" if f["ty"] == "bt" else "E%d" % i))})
@@ -278,7 +278,7 @@ def part_g(chk, thorough):
     diagnostic, and a `proc-macro derive panicked` whose message is that of an unwrap / index / unreachable is an internal failure."""
     import c17
     from compile_engine import Case, CompileEngine
-    items = [(d, item) for d, cls, item, rustc in c17.corruptions()]
+    items = [(d, item) for d, cls, item, rustc in (c17.corruptions() + c17.shifted_corruptions())]
     derives = sorted({d for d, _ in items})
     shapes = [s for s in item_shapes() if not re.search(r"dyn_ty|impl_ty|\bTr\b|\bdyn\b|!|r#Self_", s)]
     reqs = []
